@@ -20,6 +20,7 @@ static void build_events(int for_conc) {
     EV[NEVT++] = ev_qlt(0, ST_M1, ST_M1, 5, 0x0E, 0);
     EV[NEVT++] = ev_emit1(0, ST_M1, ST_M1, 7, 1, 0, ST_S0, ST_PEER);
     EV[NEVT++] = ev_reset(0, ST_M1);
+    if (for_conc) EV[NEVT++] = ev_qlt(0, ST_M1, ST_M1, 6, 0x13, 0);      /* the hardware-ID property: the one large property that is built in a scratch area per request */
     if (!for_conc) EV[NEVT++] = ev_reset(1, ST_M1);
     if (!for_conc) EV[NEVT++] = ev_probe(0x04, 0, ST_S1, ST_S1, ST_SIB, ST_SIB);     /* a probe for the sibling interface's address, seen on this one (both on one segment) */
 }
@@ -102,7 +103,7 @@ static uint64_t iface_obs(int iface) {
     }
     return h;
 }
-static uint64_t solo_obs[2][64]; static uint32_t solo_live[2][64]; static uint8_t solo_have[2][64];
+static uint64_t solo_obs[2][128]; static uint32_t solo_live[2][128]; static uint8_t solo_have[2][128];
 static void solo(int iface, int h) {
     if (solo_have[iface][h]) return;
     vf_world_reset(); vf_trace_clear();
